@@ -231,15 +231,19 @@ inductive CollCheck where
   | sufficient | zero | negative | minForLeverage | minCollateral
   deriving Repr, DecidableEq
 
-/-- `check_collateral`. -/
-def checkCollateral (W U size minFactor : Nat) (minValue : Option Nat) (allowZero : Bool) (v : Int) : Option CollCheck :=
-  if v < 0 then (if minValue.isSome then some .minCollateral else some .negative) else
-  let cv := v.natAbs
-  if (match minValue with | some mv => decide (cv < mv) | none => false) then some .minCollateral else
+/-- the tail of `check_collateral`: zero test and leverage test on a non-negative value. -/
+def checkLeverage (W U size minFactor : Nat) (allowZero : Bool) (cv : Nat) : Option CollCheck :=
   if !allowZero && cv == 0 then some .zero else
   match applyFactor W U size minFactor with
   | none => none
   | some need => if cv < need then some .minForLeverage else some .sufficient
+
+/-- `check_collateral`. -/
+def checkCollateral (W U size minFactor : Nat) (minValue : Option Nat) (allowZero : Bool) (v : Int) : Option CollCheck :=
+  if v < 0 then (if minValue.isSome then some .minCollateral else some .negative) else
+  match minValue with
+  | some mv => if v.natAbs < mv then some .minCollateral else checkLeverage W U size minFactor allowZero v.natAbs
+  | none => checkLeverage W U size minFactor allowZero v.natAbs
 
 /-- `min_collateral_factor_for_open_interest`. -/
 def minCollateralFactorForOi (W U : Nat) (m : Market) (c : PerpCfg) (isLong : Bool) (delta : Int) : Option Nat :=
@@ -421,11 +425,13 @@ def increaseExecution (W U : Nat) (m : Market) (c : PerpCfg) (pr : Prices) (isLo
             if t = 0 then .error .fail else .ok (iv, bc, amt, t)
         | _, _ => .error .fail
 
-/-- `IncreasePosition::execute` (the caller discards the state on error). -/
-def increase (W U : Nat) (m : Market) (c : PerpCfg) (pr : Prices) (p0 : Pos) (collInc sizeDelta : Nat) :
+/-- `initialize_position_if_empty`. -/
+def initIfEmpty (p0 : Pos) (m : Market) : Pos :=
+  if p0.sizeUsd = 0 then ({ p0 with sizeTokens := 0 }).syncFunding m else p0
+
+/-- `IncreasePosition::execute` after `initialize_position_if_empty`. -/
+def increaseCore (W U : Nat) (m : Market) (c : PerpCfg) (pr : Prices) (p : Pos) (collInc sizeDelta : Nat) :
     Except PErr (Market × Pos × IncreaseReport) := do
-  if !pr.isValid W then throw .prices
-  let p := if p0.sizeUsd = 0 then ({ p0 with sizeTokens := 0 }).syncFunding m else p0
   let (iv, bc, amt, sdt) ← increaseExecution W U m c pr p.isLong sizeDelta
   -- process_collateral
   let cp := pr.collateral p.collLong
@@ -464,6 +470,11 @@ def increase (W U : Nat) (m : Market) (c : PerpCfg) (pr : Prices) (p0 : Pos) (co
     | some (true, _) => pure ()
   validatePos W U m c pr p true true
   return (m, p, { impactValue := iv, impactAmount := amt, sizeDeltaTokens := sdt, collateralDelta := collDelta, fees := fees })
+
+/-- `IncreasePosition::{try_new, execute}` (the caller discards the state on error). -/
+def increase (W U : Nat) (m : Market) (c : PerpCfg) (pr : Prices) (p0 : Pos) (collInc sizeDelta : Nat) :
+    Except PErr (Market × Pos × IncreaseReport) :=
+  if !pr.isValid W then .error .prices else increaseCore W U m c pr (initIfEmpty p0 m) collInc sizeDelta
 
 /-! ### decrease: collateral processor -/
 
@@ -828,6 +839,45 @@ def decrease (W U : Nat) (m : Market) (c : PerpCfg) (pr : Prices) (p : Pos) (siz
                    uncappedPnl := upnl, withdrawable := wd, shouldRemove := remove, output := out, secondary := sec,
                    holdOut := s.holdOut, holdSec := s.holdSec, userOut := s.userOut, userSec := s.userSec, fees := fees,
                    insolventStep := step, fundingShort := s.fundingShort })
+
+/-! ### the store's guard around a decrease order (`programs/store/src/ops/order.rs`,
+`execute_decrease_position`: liquidation must be a full close; ADL must be required, must
+strictly lower the pnl factor and must not push it below `MinAfterAdl`). *Modelled*: transcribed
+from the program source, not driven by a correspondence harness. -/
+
+inductive OrderTag where
+  | plain | liquidation | adl
+  deriving Repr, DecidableEq
+
+inductive GErr where
+  | invalidArgument | adlNotRequired | invalidAdl | model (e : PErr)
+  deriving Repr, DecidableEq
+
+/-- `pnl_factor_exceeded(prices, ForAdl, is_long).map(|e| e.pnl_factor)`. -/
+def adlFactorBefore (W U : Nat) (m : Market) (pr : Prices) (isLong : Bool) : Except GErr Int :=
+  match pnlFactorWithPoolValue W U m pr isLong true with
+  | none => .error (.model .fail)
+  | some (f, _) => if pnlExceeded f (m.cfg.pnlFactor .forAdl) then .ok f else .error .adlNotRequired
+
+def guardedDecrease (W U : Nat) (m : Market) (c : PerpCfg) (pr : Prices) (p : Pos) (sizeDelta withdraw : Nat)
+    (insolvent cap : Bool) (tag : OrderTag) : Except GErr (Market × Pos × DecreaseReport) :=
+  if tag = .liquidation ∧ sizeDelta < p.sizeUsd then .error .invalidArgument else
+  let before : Except GErr (Option Int) := if tag = .adl then (adlFactorBefore W U m pr p.isLong).map some else .ok none
+  match before with
+  | .error e => .error e
+  | .ok fb =>
+    match decrease W U m c pr p sizeDelta withdraw ⟨insolvent, decide (tag = .liquidation), cap⟩ with
+    | .error e => .error (.model e)
+    | .ok (m', p', r) =>
+      match fb with
+      | none => .ok (m', p', r)
+      | some f0 =>
+        match pnlFactorWithPoolValue W U m' pr p.isLong true, toSigned W (m'.cfg.pnlFactor .minAfterAdl) with
+        | some (f1, _), some mn =>
+          if ¬ (f0 > f1) then .error .invalidAdl
+          else if ¬ (f1 ≥ mn) then .error .invalidAdl
+          else .ok (m', p', r)
+        | _, _ => .error (.model .fail)
 
 /-! ### fee-state updates on the market -/
 
